@@ -553,6 +553,27 @@ def xrunTrace (m : Matrix α) : List (XOp α) → List Bool
   | [] => []
   | x :: xs => (xexec m x).panic.isSome :: xrunTrace (xexec m x).state xs
 
+/-! ### one iterator lent to a sequence of `_with` insertions (`values.by_ref()`) -/
+
+/-- One insertion fed from a lent iterator holding `values`: the result of the insertion and what
+    the iterator still holds afterwards.  The position is asserted before the iterator is
+    touched; then `values.take(n).collect()` pulls `n` values (all of them when fewer are left). -/
+def sharedStep (m : Matrix α) (isRow : Bool) (position : Nat) (values : List α) : Res α × List α :=
+  if isRow then
+    (m.insertRowWith position values, if position ≤ m.rows then values.drop m.columns else values)
+  else
+    (m.insertColumnWith position values,
+      if position ≤ m.columns then values.drop m.rows else values)
+
+/-- A sequence of insertions `(is_row, position)` sharing one iterator: the matrix left behind,
+    the panic flag of every step, and what the iterator yields afterwards. -/
+def sharedInserts (m : Matrix α) : List (Bool × Nat) → List α → Matrix α × List Bool × List α
+  | [], values => (m, [], values)
+  | (isRow, position) :: steps, values =>
+    let r := sharedStep m isRow position values
+    let rest := sharedInserts r.1.state steps r.2
+    (rest.1, r.1.panic.isSome :: rest.2.1, rest.2.2)
+
 /-! ### every public constructor (mod.rs:80-272, 1207-1229, 1753-1789) -/
 
 /-- `from_flat_row_major`: `assert!(size.0.checked_mul(size.1) == Some(values.len()))`,
